@@ -106,6 +106,9 @@ pub const E_FD_REUSE_PROBE: usize = C_ENGINE_BASE + 31;
 pub const E_ITER_ADD_RACE: usize = C_ENGINE_BASE + 32;
 pub const E_DRAIN_SOLO: usize = C_ENGINE_BASE + 33;
 pub const E_POISONED: usize = C_ENGINE_BASE + 34;
+pub const E_CLOSE_COUNTED: usize = C_ENGINE_BASE + 35;
+pub const E_GEN_FLIP_CHECKS: usize = C_ENGINE_BASE + 36;
+pub const E_CONCURRENT_ADD: usize = C_ENGINE_BASE + 37;
 
 pub const REG_REAL: &[&str] = &[
     "signal-hook-registry (half_lock.rs, lib.rs): real code from /repo",
@@ -185,7 +188,7 @@ pub const PROPS: &[Prop] = &[
         quick_runs: 120_000,
         thorough_runs: 3_000_000,
         rule: "2-3 mutator threads incl. panicking mutators (forbidden signal; action whose Drop panics while the writer mutex is held), finite deliveries; oracles: scheduler deadlock/livelock verdicts, every mutator call returns, quiescent solo completion within 64 own steps. Non-trivial: a mutator blocked on the writer mutex or the barrier looped. Distinct: by schedule signature.",
-        probes: &[(E_MUT_PANIC, "mutator_panicked_and_was_caught"), (E_DRAIN_SOLO, "quiescent_solo_completion_checked"), (C_BARRIER_LOOPED, "barrier_looped_at_least_once"), (E_POISONED, "writer_mutex_poisoned")],
+        probes: &[(E_MUT_PANIC, "mutator_panicked_and_was_caught"), (E_DRAIN_SOLO, "quiescent_solo_completion_checked"), (C_BARRIER_LOOPED, "barrier_looped_at_least_once"), (E_POISONED, "writer_mutex_poisoned"), (C_FLIP_WATCH, "barrier_completions_checked_after_pre_switch_readers_left"), (C_STALLED_READER, "fault:later_reader_stalled_inside_read_section")],
         real: REG_REAL,
         stub: REG_STUB,
         assumptions: &["fair scheduler: a runnable non-spinning thread runs at least every 200 steps", "blind spot: a barrier demanding both slots idle simultaneously differs only under an unbounded stream of overlapping deliveries"],
